@@ -18,6 +18,7 @@ from typing import (
 
 from ..constants import (
     DEFAULT_LISTENING_HOST,
+    PEER_ADDRESS_TIMEOUT,
     PEER_INDIRECT_CONNECT_TIMEOUT,
 )
 from .connection import (
@@ -629,13 +630,24 @@ class Network:
         :raise PeerConnectionError: if no IP address or no valid ports were
             returned
         """
-        await self.server_connection.send_message(GetPeerAddress.Request(username))
-        _, response = await self.create_server_response_future(
+        # Wait for the response with a timeout: no response will ever be
+        # received if the server connection is lost
+        response_future = self.create_server_response_future(
             GetPeerAddress.Response,
             fields={
                 'username': username
             }
         )
+        try:
+            await self.server_connection.send_message(GetPeerAddress.Request(username))
+            async with atimeout(PEER_ADDRESS_TIMEOUT):
+                _, response = await response_future
+
+        except asyncio.TimeoutError:
+            raise PeerConnectionError(f"timeout waiting for address of user : {username}")
+
+        finally:
+            response_future.cancel()
 
         if response.ip == '0.0.0.0':
             logger.warning("GetPeerAddress : no address returned for username : %s", username)
